@@ -117,7 +117,10 @@ func defaultSym(v ssa.Value) (string, bool) {
 }
 
 // linOf builds the linear form of an integer SSA expression.
-func linOf(v ssa.Value, sym symNamer) linForm {
+func linOf(v ssa.Value, sym symNamer) linForm { return linOfP(v, sym, nil) }
+
+// linOfP is linOf with a resolver for phi nodes (path-sensitive evaluation).
+func linOfP(v ssa.Value, sym symNamer, phiRes func(*ssa.Phi) ssa.Value) linForm {
 	if sym == nil {
 		sym = defaultSym
 	}
@@ -135,6 +138,12 @@ func linOf(v ssa.Value, sym symNamer) linForm {
 			return linSym(s)
 		}
 		switch x := v.(type) {
+		case *ssa.Phi:
+			if phiRes != nil {
+				if e := phiRes(x); e != nil {
+					return rec(e, d+1)
+				}
+			}
 		case *ssa.BinOp:
 			switch x.Op {
 			case token.ADD:
@@ -180,11 +189,15 @@ func (a atom) String() string {
 // value holds iff atom is `pol`. For < <= > >= the result always has pol true.
 // For == / != the atom is the equality and pol says whether it holds.
 func atomOf(cond ssa.Value, val bool, sym symNamer) (a atom, pol bool, ok bool) {
+	return atomOfP(cond, val, sym, nil)
+}
+
+func atomOfP(cond ssa.Value, val bool, sym symNamer, phiRes func(*ssa.Phi) ssa.Value) (a atom, pol bool, ok bool) {
 	c, ok := normCmp(cond, val)
 	if !ok {
 		return atom{}, false, false
 	}
-	x, y := linOf(c.X, sym), linOf(c.Y, sym)
+	x, y := linOfP(c.X, sym, phiRes), linOfP(c.Y, sym, phiRes)
 	switch c.Op {
 	case token.LSS: // x < y  <=>  y - x > 0
 		return atom{Form: y.add(x, -1)}, true, true
@@ -220,4 +233,53 @@ func canonSign(l linForm) linForm {
 // negAtom: the atom equivalent to NOT(form > 0), i.e. -form + 1 > 0.
 func negAtom(a atom) atom {
 	return atom{Form: a.Form.scale(-1).add(linConst(1), 1)}
+}
+
+
+// pathPhi returns a phi resolver for a concrete path (edge taken = predecessor on the path).
+func pathPhi(path cfgPath) func(*ssa.Phi) ssa.Value {
+	prev := map[*ssa.BasicBlock]*ssa.BasicBlock{}
+	for i := 1; i < len(path.Blocks); i++ {
+		prev[path.Blocks[i]] = path.Blocks[i-1]
+	}
+	return func(ph *ssa.Phi) ssa.Value {
+		pb := prev[ph.Block()]
+		if pb == nil {
+			return nil
+		}
+		for i, p := range ph.Block().Preds {
+			if p == pb {
+				return ph.Edges[i]
+			}
+		}
+		return nil
+	}
+}
+
+// pathLits lists the inequality literals (forms > 0) and equality literals established
+// by the branches of a path.
+type lit struct {
+	A   atom
+	Pol bool
+}
+
+func pathLits(path cfgPath, sym symNamer) []lit {
+	pr := pathPhi(path)
+	var out []lit
+	for _, c := range path.Conds {
+		a, pol, ok := atomOfP(c.Cond, c.Val, sym, pr)
+		if ok {
+			out = append(out, lit{a, pol})
+		}
+	}
+	return out
+}
+
+func hasIneq(ls []lit, f linForm) bool {
+	for _, l := range ls {
+		if !l.A.Eq && l.Pol && l.A.Form.eq(f) {
+			return true
+		}
+	}
+	return false
 }
